@@ -50,6 +50,26 @@ def run():
     for h, o in hist3:
         chk.add_case(h, nontrivial=len(h) > 6)
     vlib.check_histories(chk, "SemTrace", "SemTrace.cfg", hist3, "c02m")
+    # 3. interruption as the waker: pika::thread::interrupt() on a thread blocked at an interruption
+    #    point must wake it (thread_harness; judged by ThreadAbs; only a blocked-forever history counts
+    #    here, everything else in those histories is C13's business)
+    thr = vlib.build_harness(["thread_harness"])[0]
+    runs = [([chk.seed * 1000 + 300 + i, 60, 1, "--pika:threads=%d" % [2, 3, 4][i % 3]], env) for i in range(6 * n)]
+    hist4 = vlib.collect_histories(chk, thr, runs, "c02t", timeout=400)
+    normal = [(h, o) for h, o in hist4 if not any(r.get("e") in ("crash", "hang") for r in h)]
+    for h, o in normal:
+        chk.add_case(h, nontrivial=any(r.get("op") == "block" for r in h))
+    n_ok, rejected, states = vlib.validate_histories("ThreadTrace", "ThreadTrace.cfg", [h for h, _ in normal], "c02t",
+                                                     batch=150, timeout=900)
+    chk.cov["traces_validated_against_impl"] += n_ok
+    chk.cov["trace_validation_states"] = chk.cov.get("trace_validation_states", 0) + states
+    for (idx, maxl, viol) in rejected:
+        h, o = normal[idx]
+        stuck = h[maxl - 1] if 0 < maxl <= len(h) else {}
+        if stuck.get("e") == "quiescent":
+            chk.violation("a thread blocked at an interruption point was interrupted but never ran again "
+                          "(history rejected by ThreadTrace at the watchdog's quiescent record %d)" % maxl,
+                          dict(origin=o, history=h, stuck_at=maxl, spec="ThreadTrace", cfg="ThreadTrace.cfg"))
     chk.cov["rule"] = ("(1) bare path: 1-3 target tasks x 1-4 wait rounds, register under a spinlock, unlock, "
                        "suspend; wakers on other pika tasks and plain OS threads resume the agent, 8 scheduling "
                        "policies x 1-4 workers, delays injected at agent.yield / sl.run.end / sl.store / sts.* / "
@@ -60,7 +80,8 @@ def run():
                        "load / CAS / store / helper decision on one task's state word, with the values the code "
                        "observed, is validated by TLC as a behaviour of WakeImpl (each actor at most one step ahead "
                        "of its record); a trace that instead matches a variant TLC shows to lose a wake-up is a "
-                       "violation, any other mismatch is reported as DRIFT")
+                       "violation, any other mismatch is reported as DRIFT; (3) interrupt() as the waker of a thread "
+                       "blocked at an interruption point (thread_harness, ThreadAbs)")
     chk.assumptions += ["sequential consistency in the model", "no task busy-yields forever: a wake-up issued from "
                         "a non-pika thread can be starved (not lost) by yield-spinning tasks, because the default "
                         "queue back-end prefers the producer sub-queue with most entries (observed; see DESIGN.md)"]
